@@ -9,12 +9,14 @@ import (
 	"io"
 	"net"
 	"net/http"
+	"reflect"
 	"sort"
 	"strconv"
 	"strings"
 	"sync/atomic"
 	"testing"
 	"time"
+	"unsafe"
 
 	"github.com/imroc/req/v3/internal/transport"
 	"github.com/imroc/req/v3/internal/verifh"
@@ -207,30 +209,35 @@ func c02GenPrelude(s *verifh.Session) (prelude [][]c02Ev, kinds []string, limit 
 	return
 }
 
+// c02H2ErrClass maps an error to the model's small enum. Sentinel errors are recognised by
+// their message rather than by the (unexported) variable that holds them.
 func c02H2ErrClass(err error) string {
 	if err == nil {
 		return "ok"
 	}
 	var se StreamError
 	var ce ConnectionError
+	pipeWrite := func(e error) bool {
+		return e != nil && (e.Error() == "write on closed buffer" || e.Error() == "write on uninitialized buffer")
+	}
 	switch {
 	case err == io.EOF:
 		return "eof"
 	case err == io.ErrUnexpectedEOF:
 		return "unexpectedEOF"
 	case errors.As(err, &se):
-		if se.Cause == errFromPeer {
+		if se.Cause != nil && se.Cause.Error() == "received from peer" {
 			return "rst"
 		}
-		if se.Cause == errClosedPipeWrite || se.Cause == errUninitializedPipeWrite {
+		if pipeWrite(se.Cause) {
 			return "pipeWrite"
 		}
 		return "streamProto"
 	case errors.As(err, &ce):
 		return "connProto"
-	case err == errClosedPipeWrite || err == errUninitializedPipeWrite:
+	case pipeWrite(err):
 		return "pipeWrite"
-	case err == errClosedResponseBody:
+	case err.Error() == "http2: response body closed":
 		return "closedBody"
 	case strings.Contains(err.Error(), "more than declared Content-Length"):
 		return "overDeclared"
@@ -711,7 +718,20 @@ func TestVerif_C02_h2databuf(t *testing.T) {
 		type outT struct{ ok, crossed bool }
 		outc := make(chan outT, 1)
 		go func() {
-			b := &dataBuffer{expected: exp}
+			// the "expected" hint is the struct's only int64 field (set by type, not by name)
+			b := new(dataBuffer)
+			bv := reflect.ValueOf(b).Elem()
+			nInt64 := 0
+			for i := 0; i < bv.NumField(); i++ {
+				if bv.Field(i).Kind() == reflect.Int64 {
+					nInt64++
+					reflect.NewAt(bv.Field(i).Type(), unsafe.Pointer(bv.Field(i).UnsafeAddr())).Elem().SetInt(exp)
+				}
+			}
+			if nInt64 != 1 {
+				b = new(dataBuffer) // shape changed: run without the hint
+			}
+			written := 0
 			var fifo []byte
 			ok, crossed := true, false
 			for _, o := range ops {
@@ -724,6 +744,7 @@ func TestVerif_C02_h2databuf(t *testing.T) {
 						ok = false
 					}
 					fifo = append(fifo, o.p...)
+					written += o.k
 				} else {
 					p := make([]byte, o.k)
 					m, err := b.Read(p)
@@ -746,8 +767,8 @@ func TestVerif_C02_h2databuf(t *testing.T) {
 				if b.Len() != len(fifo) {
 					ok = false
 				}
-				if len(b.chunks) > 1 {
-					crossed = true
+				if written > 16<<10 {
+					crossed = true // more than the largest chunk class: the data spans chunks
 				}
 			}
 			outc <- outT{ok, crossed}
